@@ -632,7 +632,7 @@ class Sim:
         if t[0] == "conn":
             p = int(t[1])
             if p not in self.conns:
-                self.conns[p] = True
+                self.conns[p] = len(t) == 2
                 self.view[p] = "c"
                 if p in self.dials:
                     self.dials.discard(p)
@@ -906,7 +906,7 @@ def gen_proto_case(rng, tier):
             emit(f"req {p} k={kind} {p_wants(rng, sim)}")
         r = rng.random()
         if r < 0.55:
-            emit(f"conn {p}")
+            emit(f"conn {p}" + (" dead" if rng.random() < 0.15 else ""))
             if sim.opens:
                 emit(f"subopen s{max(sim.opens)}{fate(rng, 3)}")
         elif r < 0.85:
@@ -951,7 +951,7 @@ def gen_proto_case(rng, tier):
         elif r < 0.37:
             emit(f"req {p} k={kind} {p_wants(rng, sim)}")
         elif r < 0.5:
-            emit(f"conn {p}")
+            emit(f"conn {p}" + (" dead" if rng.random() < 0.1 else ""))
         elif r < 0.56:
             emit(f"disc {p}")
         elif r < 0.6:
@@ -1211,6 +1211,8 @@ class ProtoOracle:
         if op == "conn" and res == "ok":
             self.connected.add(int(t[1]))
             self.dialing.discard(int(t[1]))
+            if len(t) > 2:
+                self.sticky.add(int(t[1]))       # its command channel is gone: nothing can be opened
         elif op == "disc" and res == "ok":
             p = int(t[1])
             self.connected.discard(p)
